@@ -47,10 +47,28 @@ def lineStart (val : Bytes) (beg : Nat) : Nat → Nat → Nat
     | none => lbeg
     | some k => if lbeg + k > beg then lbeg else lineStart val beg fuel (lbeg + k + 1)
 
+/-- The two pieces `expr_inspect_prefix` prints in front of `:lno: `: `~` if the configuration path starts with HOME
+(else nothing), and the path (without HOME in the first case). -/
+def inspectPath (home confpath : Bytes) : Bytes × Bytes :=
+  if home.isPrefixOf confpath then ([126], confpath.drop home.length) else ([], confpath)
+
+/-- `:lno: ` -/
+def inspectLno (lno : Nat) : Bytes := [58] ++ (toString lno).toUTF8.toList ++ [58, 32]
+
 /-- `expr_inspect_prefix`: `~` if the configuration path starts with HOME, then `path:lno: `. -/
 def inspectPrefix (home confpath : Bytes) (lno : Nat) : Bytes :=
-  let (tilde, p) := if home.isPrefixOf confpath then ([126], confpath.drop home.length) else ([], confpath)
-  tilde ++ p ++ [58] ++ (toString lno).toUTF8.toList ++ [58, 32]
+  (inspectPath home confpath).1 ++ (inspectPath home confpath).2 ++ inspectLno lno
+
+/-- What `expr_inspect_prefix` returns (since fix 951a0f1): the bytes `fprintf` reported with the path counted in
+columns - `nwrite += n - strlen(path) + strnwidth(path, strlen(path))`, plus 1 for the `~`. -/
+def inspectPrefixWidth (width : Bytes → Nat → Nat) (home confpath : Bytes) (lno : Nat) : Nat :=
+  (inspectPath home confpath).1.length + width (inspectPath home confpath).2 (inspectPath home confpath).2.length +
+    (inspectLno lno).length
+
+/-- The columns `expr_inspect` accounts for the head `conf:lno: key: ` (since fix 951a0f1):
+`pindent = strnwidth(key, strlen(key)) + 2`, then `pindent += expr_inspect_prefix()`. -/
+def inspectHeadWidth (width : Bytes → Nat → Nat) (home confpath : Bytes) (lno : Nat) (key : Bytes) : Nat :=
+  width key key.length + 2 + inspectPrefixWidth width home confpath lno
 
 /-- `expr_inspect(ex, mh, env)`: the text printed for one match-list entry. -/
 def exprInspect (width : Bytes → Nat → Nat) (home confpath : Bytes) (mh : Match) : Bytes :=
@@ -75,14 +93,14 @@ def exprInspect (width : Bytes → Nat → Nat) (home confpath : Bytes) (mh : Ma
               let (pindent', head) :=
                 if printkey then
                   let pre := inspectPrefix home confpath mh.lno
-                  (pindent + pre.length, pre ++ key ++ [58, 32])
+                  (pindent + inspectPrefixWidth width home confpath mh.lno, pre ++ key ++ [58, 32])
                 else (pindent, spaces pindent)
               -- `beg - (lbeg - val)` is computed in size_t: when the match starts inside the skipped
               -- leading blanks it wraps and the width of the whole rest of the value is taken
               let plen := if lbeg ≤ beg then beg - lbeg else (val.length - lbeg)
               let indent := pindent' + width (val.drop lbeg) plen
               go rest false pindent' (out ++ head ++ line ++ [10] ++ spaces indent ++ [94] ++ spaces len ++ [36, 10])
-      go mh.subs true (key.length + 2) []
+      go mh.subs true (width key key.length + 2) []
     | _, _ => []
 
 /-- `matches_inspect(ml, env)`: for every action its `path -> destination` line and, in a dry run,
